@@ -739,6 +739,11 @@ def base_configs(ctx):
     # the structure (end use, plant, reservoir and economic model) is fixed, the numbers are drawn from ctx.rng
     for (eu, pl, rm, ec) in [(1, 2, 4, 3), (2, 9, 3, 2), (31, 1, 4, 1), (1, 4, 3, 2), (2, 5, 4, 1), (52, 3, 4, 2)][:ctx.n(2, 6)]:
         out.append(configs.synthetic(rnd, enduse=eu, plant=pl, resmodel=rm, econ=ec, nseg=2, addons=False))
+    # last: ONE gradient segment with the temperature cap within reach (max depth (200-20)/50 = 3.6 km over a 3 km reservoir): a
+    # temperature re-read through a stale unit tag (200 "degF" = 93 degC) moves the cap above the reservoir and changes every result
+    capped = dict(configs.synthetic(rnd, enduse=1, plant=2, resmodel=4, econ=2, nseg=1, addons=False))
+    capped.update({'Gradient 1': '50', 'Reservoir Depth': '3', 'Maximum Temperature': '200', 'Surface Temperature': '20'})
+    out.append(list(capped.items()))
     return out
 
 
@@ -774,7 +779,9 @@ def run_variants(ctx, d, bases, snaps):
             k = (r['utype'], r['pref'], u, r['cur'])
             # quick: every entry of the file in one other unit (entries have parameter-specific post-read code: depth x1000,
             # diameter > 2, gradient > 1 ...), defaults once per unit class; thorough: everything
-            if ctx.quick and ((isgiven and name in names) or (not isgiven and k in classes)):
+            # temperatures: every entry and every default in EVERY other unit (their CurrentUnits stays stale - finding F1 - so any
+            # downstream .quantity() re-reads the converted number in the user's unit)
+            if ctx.quick and r['utype'] != 'TEMPERATURE' and ((isgiven and name in names) or (not isgiven and k in classes)):
                 continue
             classes.add(k)
             names.add(name)
@@ -834,7 +841,7 @@ def check_runs(ctx, d):
               given={'entry of the file': sum(1 for v in variants if v['given']), 'default re-expressed': sum(1 for v in variants if not v['given'])})
     for v in variants[:2]:
         ctx.sample('run-pairs', {'entry': f'{v["row"]["name"]}, {v["text"]}', 'base': v['base']})
-    check_output_requests(ctx, d, bases, res)
+    check_output_requests(ctx, d, bases[:-1], res[:-1])      # the capped base serves the input pairs only
 
 
 def check_output_requests(ctx, d, bases, res):
